@@ -155,6 +155,13 @@ func replay(c *runner.Ctx, raw json.RawMessage) {
 	if err != nil {
 		return
 	}
+	if d.Op == "only:reader1" {
+		// reduced replay for heavy witnesses: box-level decode through a 1-byte reader
+		m := &meter{c: c, in: in, name: d.Seed, desc: d.Mut, depth: -1}
+		m.do("decode-box", "DecodeBox[1-byte reader]", func() { _, _ = mp4.DecodeBox(0, oneByteReader{bytes.NewReader(in)}) })
+		m.do("decode-file", "DecodeFile[1-byte reader]", func() { _, _ = mp4.DecodeFile(oneByteReader{bytes.NewReader(in)}) })
+		return
+	}
 	if d.Op == "only:info" {
 		// reduced replay for heavy witnesses: box-level decode and Info only
 		m := &meter{c: c, in: in, name: d.Seed, desc: d.Mut, depth: -1}
